@@ -1653,13 +1653,13 @@ func (m *repoManager) commit(uuid dvid.UUID, note string, log []string) error {
 	if !found {
 		return ErrInvalidVersion
 	}
-	if node.locked {
-		return fmt.Errorf("node %s already committed", uuid)
-	}
-
 	t := time.Now()
 
 	node.Lock()
+	if node.locked {
+		node.Unlock()
+		return fmt.Errorf("node %s already committed", uuid)
+	}
 	node.locked = true
 	if len(note) != 0 {
 		node.note = note
